@@ -131,7 +131,7 @@ cpdef list collect_intervals_fast(
     """
     cdef list intervals = []
     cdef int duration = 0
-    cdef int start = 0
+    cdef int start = -1  # -1 = no run open (slot 0 is a valid run start)
     cdef int idx = start_idx
     cdef int current_idx
     cdef object val
@@ -149,7 +149,7 @@ cpdef list collect_intervals_fast(
         pred_result = predicate(val) if idx < end_idx else False
 
         if pred_result:
-            if start == 0:
+            if start < 0:
                 start = idx
             duration += 1
         else:
@@ -167,7 +167,7 @@ cpdef list collect_intervals_fast(
                     intervals.append(interval_class(start_dt, end_dt))
 
                 duration = 0
-                start = 0
+                start = -1
 
         idx += 1
 
